@@ -34,6 +34,8 @@ def far_values(w, tier):
         vals = [P, 32 * P, 1 << 40, (1 << 57) - 2, top]
     else:
         vals = [6, P - 2, 16 * P - 2, 16 * P, 17 * P - 2]
+    if w < 64:
+        vals.append((1 << (w - ww)) - 4)  # the far segment ends exactly at the top of the address space (below w=64 nothing wraps: F1 is w=64 only)
     return [v for v in dict.fromkeys(vals) if v + 4 <= (1 << (w - ww))]
 
 
@@ -44,7 +46,8 @@ def sparse_program_space(w, FAR, tier):
     quick = tier != 'thorough'
     pos = [0, 1, 2, 3, FAR, FAR + 1, FAR + 2, FAR + 3]
     f0 = [0, Fb + dw, dw + 1] if quick else [0, Fb + dw, dw + 1, Fb - 1, Fb + w]
-    j0 = [Fb, Fb + w, Fb + 3 * w, Fb + 1] if quick else [Fb, Fb + w, Fb + dw, Fb + 3 * w, Fb + 1, dw]
+    # (Fb + 3w + 1: an unaligned op that starts inside the far segment's last word - at the top of memory its fetch leaves the address space)
+    j0 = [Fb, Fb + w, Fb + 3 * w, Fb + 1, Fb + 3 * w + 1] if quick else [Fb, Fb + w, Fb + dw, Fb + 3 * w, Fb + 1, dw, Fb + 3 * w + 1]
     f1 = [0, Fb + 3 * w] if quick else [0, dw, Fb + 3 * w]
     j1 = [dw, Fb] if quick else [dw, Fb, 4 * w]
     ff0 = [0, dw + 1, 5 * w, Fb + 3 * w + 1] if quick else [0, dw + 1, 5 * w, Fb + 3 * w + 1, Fb + dw]
